@@ -255,7 +255,7 @@ class GenCfg(object):
         self.dup = 0.0             # probability of re-using an already generated sub-formula
         self.timed_since_until = True
         self.const_pred = 0.05     # probability of a predicate over constants only
-        self.wide = 0.0            # probability that a bounded once/historically/eventually/always gets a window of 64..200 samples
+        self.wide = 0.0            # probability that a bounded once/historically/eventually/always gets a window of 33..200 samples
         self.__dict__.update(kw)
 
 
@@ -282,7 +282,7 @@ def widen(rng, cfg, o, iv):
     if rng.random() >= cfg.wide:
         return iv
     a = rng.choice([0, 0, 0, 1, 2, 10, 70])
-    return (a, a + rng.choice([63, 64, 65, 80, 100, 127, 128, 200]))
+    return (a, a + rng.choice([32, 33, 40, 47, 48, 49, 50, 63, 64, 65, 80, 100, 127, 128, 200]))
 
 
 def gen_term(rng, cfg, d, pool=None):
